@@ -1,14 +1,17 @@
 (* Props/C08.v — Sync liveness: no chain content can crash the daemon or wedge a block.
    Only statements, each closed by [exact]; proofs live in Lemmas/.
 
-   Full statement (NOT proved for the whole model): from every reachable state and for every block
-   content [step_block] returns [Done].  The model has failure results exactly where the code can
-   return an error or panic; the theorems below show that the classes of content a third party
-   controls on the transaction chain are harmless, and the chain-level tie runs adversarial chains
-   through the real node.  What is missing for the full statement is an invariant argument over
-   the uniqueness constraints of the history tables and over the int64 domain of the balances. *)
+   Full statement (NOT proved for the whole of [step_block]): from every reachable state and for every
+   block content [step_block] returns [Done].  Proved: the part a third party controls.  The entries of
+   the transaction chain are processed to the end whatever they contain (totality of [apply_tx_block]
+   and of the holding pass outside the PEG-bank era), from the invariants [hist_closed] / [bal_room]
+   that every reachable state is proved to satisfy; and the exact list of failure codes that remain
+   when nothing is assumed about the entries.  Not covered by a totality theorem: the grading glue,
+   insert_rates, the snapshot / developer payouts, factoid burns (their inputs are not user-controlled
+   beyond amounts) and bank-era PEG requests (recorded finding); those are tied by the adversarial
+   chains run through the real node. *)
 From Model Require Import Examples.
-From Lemmas Require Import StatusLemmas.
+From Lemmas Require Import StatusLemmas TotalityLemmas TotalityHolding TotalityInvariant TotalityRange TotalityCodes TotalityExamples TotalityMain.
 Open Scope Z_scope.
 
 (* an entry that does not decode, does not validate, or carries a key type not yet active is skipped *)
@@ -33,6 +36,72 @@ Theorem C08_garbage_block_is_applied_partial : forall c h s es,
   Forall (fun e => entry_valid_at c e h = None) es -> apply_tx_block c h s es = Ok s.
 Proof. exact all_invalid_block_inert. Qed.
 Print Assumptions C08_garbage_block_is_applied_partial.
+
+(* ---- totality of the transaction-chain processing ------------------------------------------------------------
+   [hist_closed s]: every hash with a transaction row or a holding row has a batch row (an invariant of every
+   reachable state: C08_reachable_state_ok).  [bal_room s n]: every cell is >= 0 and has room for n more below
+   max_int64.  [entry_wf c h e]: IF the entry validates at h, its input tickers are tickers and its signer is not
+   the burn address (what the decoder and the signature check guarantee; nothing is asked of entries that do not
+   validate).  [block_credit c h es]: the transfers of the valid, conversion-free batches of the block. *)
+
+(* whatever is written on the transaction chain -- garbage, repeated hashes, overdrafts, negative amounts,
+   conversions -- the block's entries are processed to the end, from every closed state with room *)
+Theorem C08_tx_block_total : forall c h s es n,
+  hist_closed s -> Forall (fun e => entry_wf c h e = true) es -> 0 <= n ->
+  bal_room s (block_credit c h es + n) ->
+  exists s', apply_tx_block c h s es = Ok s' /\ hist_closed s' /\ bal_room s' n.
+Proof. exact apply_tx_block_total. Qed.
+Print Assumptions C08_tx_block_total.
+
+(* with NO hypothesis on the entries: the only failures left are these four codes; no uniqueness failure,
+   no "no rates", no conversion error, no reject code escaping as an error, no panic *)
+Theorem C08_tx_block_failure_codes_from_closed : forall c h es s,
+  hist_closed s -> fails_within arrival_codes (apply_tx_block c h s es).
+Proof. exact apply_tx_block_failures. Qed.
+Print Assumptions C08_tx_block_failure_codes_from_closed.
+
+(* the holding pass of a rated block, outside the PEG-bank era (in particular from 2.0 on), cannot fail *)
+Theorem C08_holding_total_outside_bank_era : forall c cur rates avgs cm s n,
+  outside_bank_era c cur -> is_empty_map rates = false -> rates_nonneg rates -> rates_nonneg avgs ->
+  holding_wf_basic c cm cur (holding_window s cur) = true -> 0 <= n ->
+  bal_room s (holding_credit c cm cur rates avgs (holding_window s cur) + n) ->
+  exists s', apply_holding c cm cur s rates avgs = Ok s' /\ keys s' = keys s /\ bal_room s' n.
+Proof. exact apply_holding_total_outside_bank_era. Qed.
+Print Assumptions C08_holding_total_outside_bank_era.
+
+(* ... in the bank era too, as long as no held batch carries a PEG request (the recorded finding lives exactly
+   in the excluded case: Lemmas/TotalityExamples.v bank_era_mixed_batch_fails) *)
+Theorem C08_holding_total : forall c cur rates avgs,
+  is_empty_map rates = false -> rates_nonneg rates -> rates_nonneg avgs ->
+  forall cm s n, holding_wf c cm cur (holding_window s cur) = true -> bank_row_ready c cur s -> 0 <= n ->
+  bal_room s (holding_credit c cm cur rates avgs (holding_window s cur) + n) ->
+  exists s', apply_holding c cm cur s rates avgs = Ok s' /\ keys s' = keys s /\ bal_room s' n.
+Proof. exact apply_holding_total. Qed.
+Print Assumptions C08_holding_total.
+
+(* the two invariants are facts about every state the daemon can reach, not assumptions *)
+Theorem C08_reachable_state_ok : forall c bs s m,
+  replay c genesis empty_cache bs = Done (s, m) -> hist_closed s /\ bal_room s 0.
+Proof. exact reachable_state_ok. Qed.
+Print Assumptions C08_reachable_state_ok.
+
+(* so: after ANY chain, the entries of the next block are processed to the end (given room for its transfers) *)
+Theorem C08_tx_block_applies_after_any_chain : forall c bs s m h es,
+  replay c genesis empty_cache bs = Done (s, m) ->
+  Forall (fun e => entry_wf c h e = true) es ->
+  (forall a t, get_bal (bal s) a t + block_credit c h es <= max_int64) ->
+  exists s', apply_tx_block c h s es = Ok s' /\ hist_closed s' /\ bal_room s' 0.
+Proof. exact C08_tx_block_applies. Qed.
+Print Assumptions C08_tx_block_applies_after_any_chain.
+
+(* hypotheses satisfiable (a 12-entry block of repeated hashes, garbage, overdrafts, negative amounts on the state
+   after the example chain; the holding pass at three heights) and each one necessary: Lemmas/TotalityExamples.v *)
+Check apply_tx_block_total_instance.
+Check apply_holding_total_instance.
+Check holding_then_block_total_instance.
+Check bank_era_mixed_batch_fails.
+Check burn_signer_fails.
+Check full_cell_fails.
 
 Example C08_example :
   (* in the example chain entry 601 appears twice in block 102 and an overdraft is attempted in 103:
